@@ -50,6 +50,9 @@ class LRUCache(object):
         while len(self._cache) > self._capacity:
             self._cache.popitem(last=False)
 
+    def remove(self, key: PyHash) -> None:
+        self._cache.pop(key, None)
+
 
 class LRUCacheStore(Store):
     """
@@ -101,6 +104,8 @@ class LRUCacheStore(Store):
          as opposed to just lazy query plans.
         """
         _logger.debug(f"store_blob key {key}")
+        # What the cache holds for this key is what the store held before this call.
+        self._cache.remove(key)
         self._store.store_blob(key, blob, codec)
 
     def sync_paths(self, paths: "OrderedDict[DDSPath, PyHash]") -> None:
